@@ -132,10 +132,20 @@ pub fn run(rng: &mut Rng, n: usize, rep: &mut Report) {
             bal.a = rng.below(3) as i128;
             bal.l = bal.l.max(ONE * (1 + rng.below(1000) as i128) + rng.below(ONE as u64) as i128).min(bank.sl.max(0));
         }
-        bal.emis = 0;
+        // most full closes carry no unsettled rewards; some carry a fraction, some whole units (those must be REFUSED,
+        // never paid out while the position stays open)
+        bal.emis = match rng.below(5) {
+            0 => rng.below(ONE as u64) as i128,
+            1 => ONE + rng.below(1 << 50) as i128,
+            _ => 0,
+        };
         let (out, post) = run_wrapper_op(op, &bank, &bal, now, 0);
-        if post.is_none() {
-            continue;
+        let Some((_, nbal)) = &post else { continue };
+        if nbal.active != 0 || nbal.a != 0 || nbal.l != 0 {
+            rep.fail(format!(
+                "{} succeeded (tokens moved) but the position is still open: pre [{}|{}] post [{}]",
+                op, bank.line(), bal.line(), nbal.line()
+            ));
         }
         let amt: i128 = out.rsplit(' ').next().unwrap().parse().unwrap();
         let tokens = BigInt::from(amt) * &one * &one;
